@@ -14,6 +14,9 @@ def main():
     ap.add_argument('--jobs', type=int)
     a = ap.parse_args()
     os.chdir(core.VERIF)
+    import signal
+    for sig in (signal.SIGTERM, signal.SIGINT, signal.SIGHUP):
+        signal.signal(sig, core.on_terminate)
     if a.replay:
         sys.exit(core.run_replay(a.property.upper(), a.replay))
     sys.exit(core.run_check(a.property.upper(), a.tier, a.seed, a.jobs))
